@@ -242,7 +242,33 @@ def run_import_case(form):
                             vals.add(str(st.value))
                         else:
                             unk = True
-    return {"fatal": None, "truth": truth, "err": err, "values": sorted(vals), "unknown": unk}
+    # symbol-level: which unit declares the symbol the read is bound to
+    uid_to_file = {v: k for k, v in units.items()}
+    bound = set()
+    if uid is not None:
+        for mid in ld.convert_unit_id_to_method_ids(uid) or []:
+            try:
+                sp1 = ld.get_symbol_state_space_p1(int(mid))
+                items1 = list(sp1.space if hasattr(sp1, "space") else sp1) if sp1 is not None else []
+            except Exception:
+                items1 = []
+            for it in items1:
+                if type(it).__name__ != "Symbol" or it.name != form[1]:
+                    continue
+                try:
+                    if ld.get_stmt_gir(int(it.stmt_id)).operation != "call_stmt":
+                        continue
+                except Exception:
+                    continue
+                sym = int(it.symbol_id)
+                if sym <= 0:
+                    bound.add("<unresolved>")
+                else:
+                    try:
+                        bound.add(uid_to_file.get(ld.convert_stmt_id_to_unit_id(sym), "?"))
+                    except Exception:
+                        bound.add("?")
+    return {"fatal": None, "truth": truth, "err": err, "values": sorted(vals), "unknown": unk, "bound_files": sorted(bound)}
 
 
 def run_batch(batch):
@@ -465,6 +491,14 @@ def main():
         if vals - {res["truth"]}:
             rep.violation("import-bound-to-other-file", f"`{ident}` in top/pkg/sub/three.py: CPython binds the name to the declaration with value {res['truth']}, the "
                           f"analysis has {sorted(vals)} (901 = top/conf.py, 902 = top/pkg/conf.py, 903 = top/pkg/sub/conf.py, 904-906 = other.py)",
+                          {"import": list(form)}, size=idx, ident=ident)
+        file_of = {"901": "top/conf.py", "902": "top/pkg/conf.py", "903": "top/pkg/sub/conf.py", "904": "top/other.py", "905": "top/pkg/other.py",
+                   "906": "top/pkg/sub/other.py"}
+        want = file_of.get(res["truth"])
+        wrongf = sorted(set(res.get("bound_files", [])) - {want, "top/pkg/sub/three.py"})
+        if wrongf:
+            rep.violation("import-symbol-bound-to-other-file" if wrongf != ["<unresolved>"] else "import-symbol-unresolved",
+                          f"`{ident}` in top/pkg/sub/three.py: CPython takes the declaration from {want}, the read is bound to a symbol declared in {wrongf}",
                           {"import": list(form)}, size=idx, ident=ident)
         elif not vals and not res["unknown"]:
             rep.violation("import-unresolved", f"`{ident}`: CPython binds value {res['truth']}, the analysis holds nothing for the name", {"import": list(form)}, size=idx, ident=ident)
